@@ -51,10 +51,8 @@ package standard
 //@   assumes call FirstSlotOfEpoch (fs): fs == firstSlotOf(arg0)
 //@   assumes call CurrentSlot (cs): cs == nowSlot()
 //@   // duties outside the requested epoch are ignored: everything merged lies inside it
-//@   // (firstSlot and lastSlot are the function's own bounds: the first slot of the epoch and the slot before the
-//@   // first slot of the next epoch in the function's own 64-bit arithmetic, both taken from the chain time service)
-//@   at call MergeDuties#1: assert firstSlot == firstSlotOf(epoch)
-//@   at call MergeDuties#1: assert forall k int :: 0 <= k && k < len(arg1) ==> arg1[k] != nil && firstSlot <= arg1[k].Slot && arg1[k].Slot <= lastSlot
+//@   // (from the first slot of the epoch to the slot before the first slot of the next epoch, in 64-bit arithmetic)
+//@   at call MergeDuties#1: assert forall k int :: 0 <= k && k < len(arg1) ==> arg1[k] != nil && firstSlotOf(epoch) <= arg1[k].Slot && arg1[k].Slot <= u64(firstSlotOf(u64(epoch + 1)) - 1)
 //@   // a job is set up only for a duty that is due, and it is marked as pending first
 //@   at call go: assert arg0 != nil && due(arg0.slot, notCurrentSlot) && in(s.pendingAttestations, arg0.slot) && s.pendingAttestations[arg0.slot]
 //@   // exactly one per due duty: cnt[k] counts the jobs set up for the k-th merged duty
@@ -62,7 +60,7 @@ package standard
 //@   at call go: ghost cnt[rangeindex#3] = cnt[rangeindex#3] + 1
 //@   loop 1
 //@     invariant forall k int :: 0 <= k && k < len(attesterDuties) ==> attesterDuties[k] != nil
-//@     invariant forall k int :: 0 <= k && k < len(filteredDuties) ==> filteredDuties[k] != nil && firstSlot <= filteredDuties[k].Slot && filteredDuties[k].Slot <= lastSlot
+//@     invariant forall k int :: 0 <= k && k < len(filteredDuties) ==> filteredDuties[k] != nil && firstSlotOf(epoch) <= filteredDuties[k].Slot && filteredDuties[k].Slot <= u64(firstSlotOf(u64(epoch + 1)) - 1)
 //@   loop 2
 //@     invariant forall k int :: 0 <= k && k < len(duties) ==> duties[k] != nil && len(duties[k].committeeIndices) == len(duties[k].validatorIndices) && len(duties[k].validatorCommitteeIndices) == len(duties[k].validatorIndices)
 //@     invariant forall k int :: cnt[k] == 0
@@ -93,17 +91,17 @@ package standard
 //@   assumes call FirstSlotOfEpoch (fs): fs == firstSlotOf(arg0)
 //@   assumes call CurrentSlot (cs): cs == nowSlot()
 //@   // a proposal is set up only for a duty of the requested epoch that is due, for the validator the node named
-//@   at call go: assert arg0 != nil && due(arg0.slot, notCurrentSlot) && firstSlot == firstSlotOf(epoch) && firstSlot <= arg0.slot && arg0.slot <= lastSlot
+//@   at call go: assert arg0 != nil && due(arg0.slot, notCurrentSlot) && firstSlotOf(epoch) <= arg0.slot && arg0.slot <= u64(firstSlotOf(u64(epoch + 1)) - 1)
 //@   // exactly one per due duty
 //@   ghost cnt (Array Int Int) = empty
 //@   at call go: ghost cnt[rangeindex#2] = cnt[rangeindex#2] + 1
 //@   loop 1
 //@     invariant forall k int :: 0 <= k && k < len(proposerDuties) ==> proposerDuties[k] != nil
-//@     invariant forall k int :: 0 <= k && k < len(duties) ==> duties[k] != nil && firstSlot <= duties[k].slot && duties[k].slot <= lastSlot
+//@     invariant forall k int :: 0 <= k && k < len(duties) ==> duties[k] != nil && firstSlotOf(epoch) <= duties[k].slot && duties[k].slot <= u64(firstSlotOf(u64(epoch + 1)) - 1)
 //@     invariant forall k int :: cnt[k] == 0
 //@   loop 2
 //@     invariant -1 <= rangeindex#2 && rangeindex#2 < len(duties)
-//@     invariant forall k int :: 0 <= k && k < len(duties) ==> duties[k] != nil && firstSlot <= duties[k].slot && duties[k].slot <= lastSlot
+//@     invariant forall k int :: 0 <= k && k < len(duties) ==> duties[k] != nil && firstSlotOf(epoch) <= duties[k].slot && duties[k].slot <= u64(firstSlotOf(u64(epoch + 1)) - 1)
 //@     invariant forall k int {cnt[k]} :: 0 <= k && k <= rangeindex#2 && due(duties[k].slot, notCurrentSlot) ==> cnt[k] == 1
 //@     invariant forall k int {cnt[k]} :: 0 <= k && k <= rangeindex#2 && !due(duties[k].slot, notCurrentSlot) ==> cnt[k] == 0
 //@     invariant forall k int {cnt[k]} :: k > rangeindex#2 ==> cnt[k] == 0
